@@ -165,17 +165,20 @@ func checkAlwaysAvailableFile(fpath string) error {
 
 // FindPathConf returns the configuration corresponding to the given path name.
 func FindPathConf(pathConfs map[string]*Path, name string) (*Path, []string, error) {
+	// a path name is always validated, even when it is equal to
+	// the key of a path configuration: the key of a regular expression
+	// configuration (~^...$) is not a valid path name.
+	err := IsValidPathName(name)
+	if err != nil {
+		return nil, nil, fmt.Errorf("invalid path name: %w (%s)", err, name)
+	}
+
 	// static path configuration
 	if pathConf, ok := pathConfs[name]; ok {
 		return pathConf, nil, nil
 	}
 
 	// regexp path configuration
-
-	err := IsValidPathName(name)
-	if err != nil {
-		return nil, nil, fmt.Errorf("invalid path name: %w (%s)", err, name)
-	}
 
 	// gather and sort all regexp path configs
 	var regexpPathConfs []*Path
